@@ -10,7 +10,7 @@ THEOREMS = ["GrpcProofs.C46." + t for t in (
     "best_vhost_eq_monitor", "first_matching_route", "first_matching_route_first", "route_match_spec",
     "fraction_count_as_is_partial", "fraction_exact_counterexample", "fraction_exact_after_fix",
     "cluster_in_proportion", "cluster_count", "hash_depends_only_on_policy_inputs", "hash_eq_monitor_projection",
-    "hash_examples", "select_config_spec")]
+    "hash_examples", "hash_terminal_cuts", "select_config_spec")]
 DESIGN_REF = "DESIGN.md section 8, C46"
 TECHNIQUE = ("Lean 4 theorems (loop invariant of FindBestMatchingVirtualHost + uniqueness of the first maximal match, findIdx? "
              "characterisation of the route loop with an explicit random source, counting lemmas over List.range for the runtime fraction "
